@@ -21,29 +21,46 @@ LEVEL_TEXT = (
     "aliasing pattern among the arguments, every callback behaviour and every execution order of its statements, no "
     "caller-owned object changes; all_functions_safe: the kernel decides the check for the IR of every function and "
     "method of src/grid (nested functions, lambdas and private helpers inlined), regenerated from the source on every "
-    "run. The IR extraction (which NumPy calls copy / view / mutate) is validated dynamically on every run by calling the "
+    "run. Default-valued parameters of nested functions that the translator binds to their default are covered by "
+    "enter_pinned / runC_sound (Python's argument binding cannot supply them under the recorded call shapes) and "
+    "all_pins_ok (the kernel re-decides that condition on the regenerated shapes). "
+    "The IR extraction (which NumPy calls copy / view / mutate) is validated dynamically on every run by calling the "
     "public entry points with read-only, snapshotted and aliased arguments and input-returning callbacks."
 )
 TECHNIQUE = "Lean 4 proof (soundness of an alias/effects analysis + kernel-decided check of the regenerated IR) + dynamic validation"
 GEN = ["effects"]
-LEAN_MODULES = ["GridVerif.Props.C20"]
+LEAN_MODULES = ["GridVerif.Props.C20", "GridVerif.Props.C20.Pinned"]
 THEOREMS = [
     "GridVerif.C20.analysis_sound",
     "GridVerif.C20.all_functions_safe",
     "GridVerif.C20.library_never_writes_caller_data",
+    # round 3: default-valued parameters of nested functions ("pinned" parameters)
+    "GridVerif.C20.supplied_none_of_fits",
+    "GridVerif.C20.enter_pinned",
+    "GridVerif.C20.enter_conservative",
+    "GridVerif.C20.run_of_runC",
+    "GridVerif.C20.runC_sound",
+    "GridVerif.C20.all_pins_ok",
+    "GridVerif.C20.library_never_writes_caller_data_with_calls",
 ]
 RULE = (
     "dynamic validation: each registry entry (public function/method x argument builder) is run under the aliasing "
     "patterns {read-only arguments, writable+byte-snapshot, same array passed for two parameters where shapes allow, "
     "callbacks returning their argument, callbacks returning one cached array}; a case is non-trivial if it passes at "
     "least one array/list/dict/callback that the function could reach with an in-place statement (i.e. not 'all fresh "
-    "scalars'); distinct = distinct (entry point, pattern, argument-shape signature)"
+    "scalars'); distinct = distinct (entry point, pattern, argument-shape signature); round 3 adds the patterns "
+    "{every integer sequence as a plain list, as a write-protected int64 array, as a writable int32 array - all at once "
+    "and one at a time} and, in the thorough tier, a parameter-level audit (which parameter of which public callable "
+    "received an object owned by the caller under which pattern)"
 )
 TRUSTED_BASE = [
     "Lean 4.33 kernel; axioms propext, Classical.choice, Quot.sound only (audited per theorem)",
     "translator harness/translate/effects.py: Python AST -> effects IR; its tables of NumPy/SciPy/builtin calls that "
     "return new objects / views / mutate an argument; SSA renaming of unconditional re-assignments; greatest-fixpoint "
-    "return summaries of library functions (sound for terminating executions)",
+    "return summaries of library functions (sound for terminating executions); for default-valued parameters of nested "
+    "functions: condition (E) of FuncTranslator.pinned_defaults (the nested function is called only from call "
+    "expressions in the text of the function it is written in) and the collection of the call shapes — the condition "
+    "on the shapes itself is re-decided by the kernel (all_pins_ok) and its sufficiency is proved (enter_pinned)",
     "reading of the IR semantics: one abstract object per variable binding, views modelled as the same object",
 ]
 ASSUMPTIONS = [
@@ -63,6 +80,11 @@ def corr(ctx: Ctx):
     concrete violation of the property, so it is recorded as an `oracle` failure (with replay)."""
     from . import c20_registry as reg
 
+    # the translator's decisions on default-valued parameters of nested functions, one synthetic
+    # function per clause of the condition (harness/translate/effects.py: PINNED_SELFTEST)
+    for k, msg in enumerate(fx.pinned_selftest()):
+        ctx.fail("corr", f"effects.pinned_defaults.selftest.{k}", msg)
+    ctx.extra["pinned_selftest_cases"] = len(fx.PINNED_SELFTEST)
     flagged, nprogs = _flagged()
     ctx.extra["ir_functions"] = nprogs
     ctx.extra["ir_flagged"] = [f"{n}: {o[:3]}" for n, o in flagged]
